@@ -61,7 +61,9 @@ func (w *UDPAssociateWrapper) ReadFrom(p []byte) (n int, addr net.Addr, err erro
 		return
 	}
 
-	n, err = r.Read(p)
+	// Copy the payload. An empty payload is a legal datagram, so do not use
+	// r.Read(p), which returns io.EOF when nothing is left after the header.
+	n = copy(p, b[len(b)-r.Len():])
 	// Caller may expect the returned address to be *net.UDPAddr.
 	addr = &net.UDPAddr{
 		IP:   destination.IP,
